@@ -471,18 +471,69 @@ func (sc *c08Scen) call(method, url string, body string) *httptest.ResponseRecor
 	return w
 }
 
-func (sc *c08Scen) setConf(anon bool, rules []string) {
-	body, _ := json.Marshal(map[string]any{"enabled": true, "interval": 86400000, "anonymize_client_ip": anon, "ignored": rules})
+// readConf reads the configuration back through the real API and probes the
+// shared IPMut; the monitor's notion of "anonymisation configured" is what
+// GET /control/querylog/config says.
+func (sc *c08Scen) readConf() string {
+	w := sc.call(http.MethodGet, "/control/querylog/config", "")
+	var resp struct {
+		Enabled bool `json:"enabled"`
+		Anon    bool `json:"anonymize_client_ip"`
+	}
+	if err := json.Unmarshal(w.Body.Bytes(), &resp); err != nil {
+		sc.t.Fatalf("get config: %v: %s", err, w.Body.String())
+	}
+	probe := net.IP{1, 2, 3, 4}
+	sc.mut.Load()(probe)
+	sc.anon = resp.Anon
+	sc.anonSeen = sc.anonSeen || resp.Anon
+	return "(" + vfBool(resp.Enabled) + ", " + vfBool(resp.Anon) + ", " + vfBool(probe[2] == 0 && probe[3] == 0) + ")"
+}
+
+func (sc *c08Scen) setConf(enabled, anon bool, rules []string) {
+	if rules == nil {
+		rules = []string{}
+	}
+	body, _ := json.Marshal(map[string]any{"enabled": enabled, "interval": 86400000, "anonymize_client_ip": anon, "ignored": rules})
 	w := sc.call(http.MethodPut, "/control/querylog/config/update", string(body))
 	if w.Code != http.StatusOK {
 		sc.t.Fatalf("config update: %d %s", w.Code, w.Body.String())
 	}
-	sc.anon, sc.qRules = anon, rules
-	sc.anonSeen = sc.anonSeen || anon
+	sc.qRules = rules
 	sc.qEngine, _ = aghnet.NewIgnoreEngine(rules)
-	sc.evs = append(sc.evs, vfApp("SConf", vfBool(anon), c08Table(sc.qEngine)))
-	sc.desc = append(sc.desc, fmt.Sprintf("querylog config anonymize=%v ignored=%v", anon, rules))
+	obs := sc.readConf()
+	sc.evs = append(sc.evs, vfApp("SConf", vfBool(enabled), vfBool(anon), c08Table(sc.qEngine), obs))
+	sc.desc = append(sc.desc, fmt.Sprintf("PUT querylog/config/update enabled=%v anonymize=%v ignored=%v", enabled, anon, rules))
 	sc.cls2["config-change"] = true
+}
+
+// legacyConf posts to the deprecated /control/querylog_config; nil = field absent.
+func (sc *c08Scen) legacyConf(enabled, anon *bool, interval *float64) {
+	m := map[string]any{}
+	optE, optA := vfOpt("bool", false, ""), vfOpt("bool", false, "")
+	if enabled != nil {
+		m["enabled"] = *enabled
+		optE = vfOpt("bool", true, vfBool(*enabled))
+	}
+	if anon != nil {
+		m["anonymize_client_ip"] = *anon
+		optA = vfOpt("bool", true, vfBool(*anon))
+	}
+	if interval != nil {
+		m["interval"] = *interval
+	}
+	body, _ := json.Marshal(m)
+	w := sc.call(http.MethodPost, "/control/querylog_config", string(body))
+	if w.Code != http.StatusOK {
+		sc.t.Fatalf("legacy config: %d %s", w.Code, w.Body.String())
+	}
+	obs := sc.readConf()
+	sc.evs = append(sc.evs, vfApp("SLegacy", optE, optA, obs))
+	sc.desc = append(sc.desc, fmt.Sprintf("POST querylog_config %s", body))
+	sc.cls2["config-legacy"] = true
+	if anon == nil {
+		sc.cls2["config-legacy-partial"] = true
+	}
 }
 
 func (sc *c08Scen) flush() {
@@ -664,7 +715,7 @@ func c08Prelude(t *testing.T, out *vfOut, base string) (n int) {
 			sc.query(third, true, ap("::ffff:192.168.1.5"), "cli1")
 		}
 		sc.search("memory")
-		sc.setConf(anon, []string{"plain.test"})
+		sc.setConf(true, anon, []string{"plain.test"})
 		sc.search("memory-after-change")
 		sc.flush()
 		sc.search("file")
@@ -710,13 +761,36 @@ func c08Prelude(t *testing.T, out *vfOut, base string) (n int) {
 		sc.finish(out, "prelude-maclike-clientid")
 	}
 
+	// deprecated POST /control/querylog_config: every field present / absent,
+	// starting with anonymisation configured on and off
+	for _, anon := range []bool{true, false} {
+		sc := c08New(t, base, n, anon, false, []string{"||ads.test^"}, nil)
+		n++
+		tr, fa := true, false
+		one, week := 1.0, 7.0
+		steps := []struct {
+			e, a *bool
+			iv   *float64
+		}{{nil, nil, &one}, {&tr, nil, nil}, {nil, nil, nil}, {nil, &tr, nil}, {&fa, nil, &week}, {&tr, &fa, &one}, {nil, nil, &week},
+			{&tr, &tr, &one}, {nil, nil, &one}}
+		for _, st := range steps {
+			sc.legacyConf(st.e, st.a, st.iv)
+			sc.query("ok.example.", false, ap("192.168.1.5"), "")
+			sc.query("Plain.Test.", false, ap("2001:db8::1234:5678"), "cli1")
+			sc.search("memory-after-change")
+		}
+		sc.flush()
+		sc.search("file")
+		sc.finish(out, "prelude-legacy-config")
+	}
+
 	// anonymisation switched while running
 	sc := c08New(t, base, n, false, false, []string{"||ads.test^"}, nil)
 	n++
 	for _, a := range c08Addrs {
 		sc.query("ok.example.", false, ap(a), "")
 	}
-	sc.setConf(true, []string{"||ads.test^"})
+	sc.setConf(true, true, []string{"||ads.test^"})
 	sc.search("memory-after-change")
 	for _, a := range c08Addrs {
 		sc.query("Sub.OK.example.", false, ap(a), "")
@@ -769,11 +843,32 @@ func c08Rand(t *testing.T, out *vfOut, base string, n int, r *vfRand) {
 	}
 	switch r.Intn(4) {
 	case 0:
-		sc.setConf(sc.anon, pickRules())
+		sc.setConf(r.Chance(5, 6), sc.anon, pickRules())
 	case 1:
 		addClient(true)
 	case 2:
-		sc.setConf(!sc.anon, sc.qRules)
+		sc.setConf(true, !sc.anon, sc.qRules)
+	}
+	if r.Chance(1, 3) {
+		// deprecated endpoint, each field present or absent
+		var e, a *bool
+		var iv *float64
+		if r.Chance(1, 3) {
+			v := r.Chance(4, 5)
+			e = &v
+		}
+		if r.Chance(1, 3) {
+			v := r.Bool()
+			a = &v
+		}
+		if r.Bool() {
+			v := vfPick(r, []float64{1, 7, 30})
+			iv = &v
+		}
+		sc.legacyConf(e, a, iv)
+		for i := 1 + r.Intn(3); i > 0; i-- {
+			query()
+		}
 	}
 	if r.Chance(2, 3) {
 		sc.search("memory-after-change")
